@@ -71,7 +71,7 @@ func runHostOnce(sc *Scenario) *HostRun {
 	errPath := filepath.Join(dir, "stderr.txt")
 	errF, _ := os.Create(errPath)
 	cmd := exec.Command(os.Args[0], "-test.run", "^$")
-	cmd.Env = append(os.Environ(), "VERIF_HOST=1", "VERIF_SCENARIO="+scPath, "VERIF_TRACE="+trPath, "GOTRACEBACK=all", "TMPDIR="+dir)
+	cmd.Env = append(os.Environ(), "VERIF_HOST=1", "VERIF_SCENARIO="+scPath, "VERIF_TRACE="+trPath, "GOTRACEBACK=all", "TMPDIR="+dir, "GOMAXPROCS="+hostProcs())
 	cmd.Stdout = nil
 	cmd.Stderr = errF
 	cmd.SysProcAttr = &syscall.SysProcAttr{Setpgid: true}
@@ -143,6 +143,7 @@ func runHostOnce(sc *Scenario) *HostRun {
 		res.Trace = &Trace{}
 	}
 	if td := os.Getenv("VERIF_TRACE_DIR"); td != "" {
+		td = filepath.Join(td, fmt.Sprintf("p%d", os.Getpid())) // one directory per shard process
 		os.MkdirAll(td, 0o755)
 		tb, _ := json.MarshalIndent(res.Trace, "", " ")
 		os.WriteFile(filepath.Join(td, fmt.Sprintf("trace-%03d.json", n)), tb, 0o644)
@@ -536,4 +537,13 @@ func mapRaces(stderr string) []string {
 		}
 	}
 	return out
+}
+
+// hostProcs: how many OS threads a host may run Go code on. A host mostly waits; with the default (one per core) sixteen
+// concurrent hosts oversubscribe the machine sixteen-fold and the wake-up lag of a 1 ms sleeper has a median of 26 ms.
+func hostProcs() string {
+	if v := os.Getenv("VERIF_HOST_PROCS"); v != "" {
+		return v
+	}
+	return "3"
 }
